@@ -1,7 +1,9 @@
 """C11 — the solver query equals the path's constraints; refinement is exact.
 
-Obligations: T-refine, Props/C11.vo (theorems over the regenerated rules of solve.refine
-and f-strings of solve.dump, and over the model of sevm.Path), lint.
+Obligations: T-refine, T-pathcopy, Props/C11.vo (theorems over the regenerated rules of
+solve.refine and f-strings of solve.dump, over the model of one sevm.Path, and over the
+object-level model of several Path objects whose copy modes are regenerated from
+Path.branch / Path.extend_path), lint.
 Ties (every run):
   X-refine  real solve.refine on declaration / assert / near-miss lines at many widths
             vs the extracted refine_line; value of the real refined define-fun (z3) on
@@ -13,6 +15,15 @@ Ties (every run):
             cache_solver, plain and refined) re-parsed with z3 and compared with the
             conjunction of every constraint handed to the path (two unsat calls);
             dumped file text vs the model's dump_text.
+  X-heap    programs over SEVERAL real Path objects (appends / forks / activations /
+            slices / extensions on any object in any order, several objects created from
+            the same state; half of them following the exploration discipline of
+            SEVM.run) vs the extracted object-level model (conditions, pending, sliced,
+            assertions of the solver object, ids of every object); every object's
+            conditions and dumped queries vs the constraints accumulated on its own
+            lineage (independent Python rendering, cross-checked against the Coq
+            add_all / accumulated / lineages); on disciplined programs the real solver
+            of every running path vs the pure model run along its lineage.
 """
 import os
 import re
@@ -23,14 +34,15 @@ from harness import common
 from harness.common import Model
 
 PID = "C11"
-TRANSLATORS = ["T-refine"]
+TRANSLATORS = ["T-refine", "T-pathcopy"]
 KNOWN = []  # genuine defects of halmos found by this check (none so far)
 
 ASSUMPTIONS = [
     "z3.simplify preserves meaning, z3.is_true only holds of the literal true, equal dict keys (structural equality of hash-consed terms) denote the same formula -- hypotheses of C11_query_equals_constraints, visible in its statement",
     "z3's printer (Solver.to_smt2) prints the assertions it holds and z3's parser reads them back (the correspondence run re-parses every dumped file and checks equivalence with the path's constraints, as support)",
     "tracking literals |<id>| live in their own name space (decimal z3 ast ids; halmos symbols are never purely numeric)",
-    "the z3 solver shared by the paths of one exploration follows the push/pop discipline of Path.branch / Path.activate (the model records, per path, the assertions visible when that path is active)",
+    "the worklist of SEVM.run follows the exploration discipline stated as Model/PathHeapModel.sched_step (appends and forks come from the path running on the solver, the most recent waiting fork is activated next): hypothesis `sched_run ... = Some sc` of C11_solver_mirrors_running_path, visible in its statement; the theorems about conditions / queries (C11_paths_do_not_interfere, C11_every_path_query) do not need it",
+    "Python object semantics as modelled: dict / set / defaultdict mutation in place, .copy() = new container with the same values, deepcopy = new container with new sets (the copy modes are read off sevm.py by T-pathcopy and cross-checked by object identity on real Path objects)",
     "the extracted model and driver are faithful to the Coq definitions (extraction is trusted)",
 ]
 PARTIAL = "paths are built directly on sevm.Path objects with generated z3 conditions (L2 of DESIGN 4.2); no end-to-end `python -m halmos` run on fabricated build artifacts is part of this check"
@@ -239,19 +251,34 @@ CORPUS = [
 
 # ----------------------------------------------------------------- X-path: implementation side
 
-def impl_script(script):
-    """Runs the script on real sevm.Path objects; returns observations + the integer
-    encoding of the same script for the model + the spec comparison results."""
+_SPARE_CTX = []
+
+
+def make_env():
+    """z3 vocabulary shared by the script runners: terms and conditions of the generated
+    scripts, and the integer names under which the model sees the simplified conditions."""
     import logging
+    from types import SimpleNamespace as NS
 
     import z3
-    from types import SimpleNamespace as NS
-    from pathlib import Path as P
+
+    if not _SPARE_CTX:
+        # Path.to_smt2 creates (and drops) a z3 Context per call: a multi-megabyte allocation
+        # that glibc hands back to the kernel and faults in again every time (0.3 s per call
+        # with an unlucky heap layout).  Keep freed memory in the process and one idle context
+        # alive.  Test-side only: halmos is not touched.
+        try:
+            import ctypes
+
+            libc = ctypes.CDLL("libc.so.6")
+            libc.mallopt(-1, 1 << 30)  # M_TRIM_THRESHOLD
+            libc.mallopt(-3, 1 << 30)  # M_MMAP_THRESHOLD
+        except Exception:
+            pass
+        _SPARE_CTX.append(z3.Context())
 
     logging.getLogger("halmos").setLevel(logging.ERROR)  # generated conditions may simplify to false
-    import halmos.solve as S
-    from halmos.sevm import Path, f_div, f_exp, f_mod, f_mul, f_sdiv, f_smod
-    from halmos.utils import create_solver
+    from halmos.sevm import f_div, f_exp, f_mod, f_mul, f_sdiv, f_smod
 
     BV = z3.BitVecSort(256)
     consts = {v: z3.BitVec(f"p_{v}_uint256_{i:02d}", 256) for i, v in enumerate(VARS)}
@@ -349,6 +376,48 @@ def impl_script(script):
     def known(ast):
         return ident.get(ast.get_id(), -1)
 
+    return NS(z3=z3, BV=BV, consts=consts, smalls=smalls, arrays=arrays, allvars=allvars, mk=mk, mkb=mkb,
+              cond_int=cond_int, known=known, table=table, varid=varid, keep=keep)
+
+
+def equiv_check(z3, chk, parsed, want, ids):
+    """[] if And(parsed) (tracking literals existentially quantified) <=> And(want)."""
+    bad = []
+
+    def cex():  # the assignment, without the tracking literals |<id>| of earlier parses
+        mdl = chk.model()
+        return ", ".join(f"{d.name()} = {mdl[d]}" for d in sorted(mdl.decls(), key=lambda d: d.name())
+                         if d.arity() == 0 and not (d.name().isdigit() or d.name().startswith("<")))[:400]
+
+    P_, W_ = z3.And(*parsed) if parsed else z3.BoolVal(True), z3.And(*want) if want else z3.BoolVal(True)
+    r1 = chk.check(P_, z3.Not(W_))
+    if r1 == z3.sat:
+        bad.append(["query-weaker", "satisfies the query, violates a constraint: " + cex()])
+    elif r1 != z3.unsat:
+        bad.append(["undecided", "query => constraints"])
+    Pt = z3.substitute(P_, *[(z3.Bool(i), z3.BoolVal(True)) for i in ids]) if ids else P_
+    r2 = chk.check(W_, z3.Not(Pt))
+    if r2 == z3.sat:
+        bad.append(["query-stronger", "satisfies every constraint, rejected by the query: " + cex()])
+    elif r2 != z3.unsat:
+        bad.append(["undecided", "constraints => query"])
+    return bad
+
+
+def impl_script(script):
+    """Runs the script on real sevm.Path objects; returns observations + the integer
+    encoding of the same script for the model + the spec comparison results."""
+    from types import SimpleNamespace as NS
+    from pathlib import Path as P
+
+    import halmos.solve as S
+    from halmos.sevm import Path, f_div, f_exp, f_mod, f_mul, f_sdiv, f_smod
+    from halmos.utils import create_solver
+
+    E = make_env()
+    z3, BV, consts, smalls, arrays, allvars = E.z3, E.BV, E.consts, E.smalls, E.arrays, E.allvars
+    mkb, cond_int, known, table, varid = E.mkb, E.cond_int, E.known, E.table, E.varid
+
     obs = {"error": None}
     ops = []
     acc = []
@@ -380,6 +449,8 @@ def impl_script(script):
                 path = new
     except ValueError as e:
         obs["error"] = f"ValueError {e.args[0] if e.args else ''}"
+    except (KeyError, IndexError, z3.Z3Exception) as e:  # never on a well-formed Path: reported against the model
+        obs["error"] = f"{type(e).__name__} {str(e.args[0])[:80] if e.args else ''}"
     obs["ops"] = ops
     obs["table"] = table
     if obs["error"]:
@@ -396,21 +467,7 @@ def impl_script(script):
     chk.set("timeout", 2000)
 
     def equiv(parsed, want, ids):
-        """[] if And(parsed) (tracking literals existentially quantified) <=> And(want)."""
-        bad = []
-        P_, W_ = z3.And(*parsed) if parsed else z3.BoolVal(True), z3.And(*want) if want else z3.BoolVal(True)
-        r1 = chk.check(P_, z3.Not(W_))
-        if r1 == z3.sat:
-            bad.append(["query-weaker", str(chk.model())[:400]])
-        elif r1 != z3.unsat:
-            bad.append(["undecided", "query => constraints"])
-        Pt = z3.substitute(P_, *[(z3.Bool(i), z3.BoolVal(True)) for i in ids]) if ids else P_
-        r2 = chk.check(W_, z3.Not(Pt))
-        if r2 == z3.sat:
-            bad.append(["query-stronger", str(chk.model())[:400]])
-        elif r2 != z3.unsat:
-            bad.append(["undecided", "constraints => query"])
-        return bad
+        return equiv_check(z3, chk, parsed, want, ids)
 
     # the refined query must be the query with every refinable abstraction read as the exact
     # EVM operation: compared assertion by assertion, structurally after simplification,
@@ -439,9 +496,29 @@ def impl_script(script):
         val += [(z3.Bool(i), z3.BoolVal(True)) for i in ids]
         return val
 
+    def refined_witness(refined, ids):
+        """A concrete assignment on which the refined file (its tracking literals existentially
+        quantified) and the path's constraints under the exact EVM reading disagree."""
+        R_ = z3.And(*refined) if refined else z3.BoolVal(True)
+        W_ = z3.substitute_funs(z3.And(*acc), *pairs_exact) if acc else z3.BoolVal(True)
+        for _ in range(8):
+            val = [(a, b) for a, b in valuation([]) ]
+            wv = z3.simplify(z3.substitute(z3.substitute_funs(W_, pair_exp), *val))
+            rv = z3.simplify(z3.substitute(z3.substitute_funs(R_, pair_exp), *val))  # over the tracking literals only
+            if not (z3.is_true(wv) or z3.is_false(wv)):
+                continue
+            r = chk.check(rv)
+            shown = [(str(a), str(b)[:70]) for a, b in val]
+            if r == z3.sat and z3.is_false(wv):
+                return ["refined-query-weaker", f"satisfies the refined query file (tracking literals { {d.name(): str(chk.model()[d]) for d in chk.model().decls() if d.name().isdigit()} }), violates the constraints: {shown}"]
+            if r == z3.unsat and z3.is_true(wv):
+                return ["refined-query-stronger", f"satisfies the constraints, rejected by the refined query file: {shown}"]
+        return None
+
     def refined_ok(plain, refined, ids):
         if len(plain) != len(refined):
-            return [["refined-length", f"{len(plain)} assertions before, {len(refined)} after refine"]]
+            w = refined_witness(refined, ids)
+            return [w or ["refined-length", f"{len(plain)} assertions before, {len(refined)} after refine"]]
         bad = []
         for i, (p_, r_) in enumerate(zip(plain, refined)):
             F = z3.substitute_funs(p_, *pairs_exact)
@@ -537,6 +614,325 @@ def script_kinds(script, obs):
     return kinds
 
 
+# ----------------------------------------------------------------- X-heap: several Path objects
+
+def gen_hscript(r, tier):
+    """A program over Path objects (handle = creation index): appends / forks / activations /
+    slices / extensions on ANY live object in any order -- in particular several objects
+    forked off or extended from the same parent, the parent or a sibling running on."""
+    n = r.randint(3, 11 if tier == "quick" else 20)
+    hs = [{"pending": False, "sliced": False, "kids": 0}]
+    steps, prev = [], []
+
+    def pick():
+        k = r.random()
+        if k < 0.35:
+            return len(hs) - 1
+        parents = [i for i, h in enumerate(hs) if h["kids"]]
+        if parents and k < 0.7:
+            return r.choice(parents)  # a state something else was already started from
+        return r.randrange(len(hs))
+
+    for _ in range(n):
+        i = pick()
+        h = hs[i]
+        k = r.random()
+        if h["pending"] and k < 0.85:
+            steps.append(["activate", i])
+            h["pending"] = False
+        elif k < 0.5:
+            c = gen_bool(r, r.randint(0, 2), prev)
+            prev.append(c)
+            steps.append(["append", i, c, r.random() < 0.3])
+        elif k < 0.65:
+            c = gen_bool(r, r.randint(0, 2), prev)
+            prev.append(c)
+            steps.append(["branch", i, c])
+            if h["pending"]:
+                break  # branching from an inactive path raises: the program ends there
+            hs.append({"pending": True, "sliced": False, "kids": 0})
+            h["kids"] += 1
+        elif k < 0.75:
+            steps.append(["slice", i, r.sample(VARS + ["st", "bal", "k"], r.randint(0, 3))])
+            if h["sliced"]:
+                break  # already sliced: raises
+            h["sliced"] = True
+            steps.append(["extend", i])
+            hs.append({"pending": False, "sliced": False, "kids": 0})
+            h["kids"] += 1
+        elif k < 0.97:
+            steps.append(["extend", i])
+            hs.append({"pending": False, "sliced": False, "kids": 0})
+            h["kids"] += 1
+        else:
+            steps.append(["activate", i])  # also on an active path / out of LIFO order
+            h["pending"] = False
+    return steps
+
+
+def gen_dfs_hscript(r, tier):
+    """A program that follows the exploration discipline of SEVM.run (Model sched_step): on
+    every solver object one running path appends and forks, the most recent waiting fork is
+    activated when the running path is done; finished / running paths are sliced and
+    extended into new explorations (new solver objects), several times from the same state."""
+    n = r.randint(4, 12 if tier == "quick" else 24)
+    solver_of, current, waiting, sliced = [0], [0], [[]], {0: False}
+    steps, prev = [], []
+    for _ in range(n):
+        s = r.randrange(len(current)) if r.random() < 0.5 else len(current) - 1
+        i = current[s]
+        k = r.random()
+        if k < 0.4:
+            c = gen_bool(r, r.randint(0, 2), prev)
+            prev.append(c)
+            steps.append(["append", i, c, r.random() < 0.3])
+        elif k < 0.6:
+            c = gen_bool(r, r.randint(0, 2), prev)
+            prev.append(c)
+            steps.append(["branch", i, c])
+            new = len(solver_of)
+            solver_of.append(s)
+            sliced[new] = False
+            waiting[s].insert(0, new)
+            if r.random() < 0.7:  # the parent takes the other side
+                steps.append(["append", i, ["bnot", c], True])
+        elif k < 0.78 and waiting[s]:
+            j = waiting[s].pop(0)
+            steps.append(["activate", j])
+            current[s] = j
+        else:
+            active = [j for j in range(len(solver_of)) if not any(j in w for w in waiting)]
+            j = r.choice(active)
+            if not sliced[j] and r.random() < 0.5:
+                steps.append(["slice", j, r.sample(VARS + ["st", "bal", "k"], r.randint(0, 3))])
+                sliced[j] = True
+            for _ in range(r.randint(1, 2)):
+                steps.append(["extend", j])
+                new = len(solver_of)
+                solver_of.append(len(current))
+                sliced[new] = False
+                current.append(new)
+                waiting.append([])
+    return steps
+
+
+def _c(op, a, b):
+    return [op, ["var", a], ["const", b]]
+
+
+HCORPUS = [
+    # two transactions started from the same state (unsliced): the first one appends on its
+    # in-place lineage, the second one must not see it
+    [["append", 0, _c("ugt", "a", 0), False], ["extend", 0], ["append", 1, _c("ugt", "a", 1000), True],
+     ["extend", 0], ["append", 2, _c("ugt", "a", 2000), True]],
+    # ... the same from a sliced state, the first transaction forking on the way
+    [["append", 0, _c("ugt", "a", 0), False], ["append", 0, _c("ult", "b", 9), False], ["slice", 0, ["a"]],
+     ["extend", 0], ["branch", 1, _c("ugt", "a", 1000)], ["append", 1, ["bnot", _c("ugt", "a", 1000)], True],
+     ["activate", 2], ["extend", 0], ["branch", 3, _c("ugt", "a", 2000)],
+     ["append", 3, ["bnot", _c("ugt", "a", 2000)], True], ["activate", 4]],
+    # both sides of a fork keep running; a grandchild; the parent appends a condition over the
+    # same variables after the fork
+    [["append", 0, _c("ult", "a", 50), False], ["branch", 0, _c("eq", "b", 1)], ["append", 0, _c("ne", "b", 1), True],
+     ["append", 0, ["ult", ["var", "a"], ["var", "b"]], False], ["activate", 1], ["branch", 1, _c("eq", "c", 2)],
+     ["append", 1, _c("ne", "c", 2), True], ["activate", 2], ["append", 2, ["ult", ["var", "c"], ["var", "a"]], False]],
+    # a frontier state extended three times, the state itself sliced between the extensions
+    [["append", 0, ["ult", ["select", "st", ["var", "a"]], ["var", "b"]], False], ["extend", 0],
+     ["append", 1, _c("eq", "b", 7), False], ["slice", 0, ["st"]], ["extend", 0],
+     ["append", 2, ["ult", ["var", "b"], ["select", "st", ["var", "c"]]], False], ["extend", 0],
+     ["append", 3, _c("ne", "b", 7), False], ["slice", 1, ["b"]], ["extend", 1]],
+    # out-of-order activation of two forks of the same parent, and a fork of an inactive path
+    [["branch", 0, _c("eq", "a", 1)], ["branch", 0, _c("eq", "a", 2)], ["activate", 1], ["activate", 2]],
+    [["branch", 0, _c("eq", "a", 1)], ["branch", 1, _c("eq", "a", 2)]],
+]
+
+
+def spec_lineage_conditions(script, cond_int):
+    """Independent rendering of the property for every Path object: the integer names of the
+    first occurrences of the non-trivial simplified constraints accumulated on its lineage
+    (what its ancestors were handed before it was created from them, then its own; the
+    condition of a fork joins when the fork is activated), plus the raw z3 constraints."""
+    raw, pend = [[]], [[]]
+    for st in script:
+        i = st[1]
+        if i >= len(raw):
+            break
+        if st[0] == "append":
+            raw[i].append(st[2])
+        elif st[0] == "branch":
+            if pend[i]:
+                break
+            raw.append(list(raw[i]))
+            pend.append([st[2]])
+        elif st[0] == "activate":
+            raw[i] += pend[i]
+            pend[i] = []
+        elif st[0] == "extend":
+            raw.append(list(raw[i]))
+            pend.append([])
+    out = []
+    for cs in raw:
+        seen = []
+        for c in cs:
+            k = cond_int(c)
+            if k != 0 and k not in seen:
+                seen.append(k)
+        out.append(seen)
+    return raw, out
+
+
+def impl_hscript(script):
+    """Runs a program over several real sevm.Path objects; observes every object at the end
+    and compares its conditions / its dumped queries with the constraints of its lineage."""
+    from types import SimpleNamespace as NS
+    from pathlib import Path as P
+
+    import halmos.solve as S
+    from halmos.sevm import Path
+    from halmos.utils import create_solver
+
+    E = make_env()
+    z3, allvars, mkb, known, table, varid = E.z3, E.allvars, E.mkb, E.known, E.table, E.varid
+    built = {}
+
+    def cond(t):  # one z3 term per script term: the same object whenever the script repeats it
+        key = repr(t)
+        if key not in built:
+            built[key] = mkb(t)
+        return built[key]
+
+    def cint(t):
+        return E.cond_int(cond(t))
+
+    obs = {"error": None}
+    ops = []
+    paths = [Path(create_solver())]
+    try:
+        for st in script:
+            i = st[1]
+            if st[0] == "append":
+                ops += [1, i, cint(st[2]), 1 if st[3] else 0]
+                paths[i].append(cond(st[2]), branching=st[3])
+            elif st[0] == "branch":
+                ops += [2, i, cint(st[2])]
+                paths.append(paths[i].branch(cond(st[2])))
+            elif st[0] == "activate":
+                ops += [5, i]
+                paths[i].activate()
+            elif st[0] == "slice":
+                vs = [allvars[v] for v in st[2]]
+                ops += [3, i, len(vs)] + [varid.setdefault(str(v), len(varid) + 1) for v in vs]
+                paths[i].slice(vs)
+            elif st[0] == "extend":
+                ops += [4, i, 0]
+                new = Path(create_solver())
+                new.extend_path(paths[i])
+                paths.append(new)
+    except (ValueError, KeyError, IndexError, z3.Z3Exception) as e:
+        obs["error"] = f"{type(e).__name__} {str(e.args[0])[:80] if e.args else ''}"
+    raw, want = spec_lineage_conditions(script, cint)
+    obs["ops"] = ops
+    obs["table"] = table
+    obs["spec_conds"] = want
+    if obs["error"]:
+        return obs
+    td = tempfile.mkdtemp(prefix="c11h_")
+    chk = z3.Solver()
+    chk.set("timeout", 2000)
+    strip = lambda t: t.replace("(set-option :produce-unsat-cores true)\n", "")  # noqa: E731
+    obs["paths"] = []
+    for j, path in enumerate(paths):
+        o = {"conds": [[known(c), 1 if b else 0] for c, b in path.conditions.items()],
+             "pending": len(path.pending),
+             "sliced": None if path.sliced is None else sorted(path.sliced),
+             "solver": sorted(known(a) for a in path.solver.assertions()),
+             "q": {}}
+        idmap = {str(c.get_id()): known(c) for c in path.conditions}
+        for cs in (False, True):
+            q = path.to_smt2(NS(cache_solver=cs))
+            qo = {"ids": [idmap.get(i, -1) for i in q.assertions], "n_ids": len(q.assertions)}
+            if not cs or j == len(paths) - 1 or j == 0:
+                ctx = S.PathContext(args=NS(verbose=0, cache_solver=cs), path_id=10 * j + int(cs),
+                                    solving_ctx=NS(dump_dir=P(td)), query=q)
+                S.dump(ctx)
+                text = ctx.dump_file.read_text()
+                try:
+                    parsed = list(z3.parse_smt2_string(strip(text)))
+                    qo["spec"] = equiv_check(z3, chk, parsed, [cond(t) for t in raw[j]], q.assertions if cs else [])
+                except z3.Z3Exception as e:
+                    qo["spec"] = [["unparsable", str(e)[:200]]]
+            o["q"][str(cs)] = qo
+        obs["paths"].append(o)
+    for f in os.listdir(td):
+        os.unlink(os.path.join(td, f))
+    os.rmdir(td)
+    return obs
+
+
+def parse_model_heap(res):
+    if res is None:
+        return None
+    if res[0] == 0:
+        return {"error": True}
+    it = iter(res[1:])
+    out = []
+    for _ in range(next(it)):
+        n = next(it)
+        conds = [[next(it), next(it)] for _ in range(n)]
+        pending = next(it)
+        flag, n = next(it), next(it)
+        sl = sorted({next(it) for _ in range(n)})
+        n = next(it)
+        solver = sorted(next(it) for _ in range(n))
+        n = next(it)
+        asserted = [next(it) for _ in range(n)]
+        n = next(it)
+        ids = [next(it) for _ in range(n)]
+        out.append({"conds": conds, "pending": pending, "sliced": sl if flag else None, "solver": solver,
+                    "asserted": asserted, "ids": ids})
+    return {"error": False, "paths": out}
+
+
+def parse_model_lineage(res):
+    if res is None or res[0] == 0:
+        return None
+    it = iter(res[1:])
+    return [[next(it) for _ in range(next(it))] for _ in range(next(it))]
+
+
+def hscript_kinds(script, obs):
+    names = [s[0] for s in script]
+    kinds = []
+    parents = [s[1] for s in script if s[0] in ("extend", "branch")]
+    if any(parents.count(i) > 1 for i in parents):
+        kinds.append("several_children_of_one_state")
+    ext = {}
+    for k, s in enumerate(script):
+        if s[0] == "extend":
+            ext.setdefault(s[1], []).append(k)
+    created, nobj = {}, 1
+    for k, s in enumerate(script):
+        if s[0] in ("extend", "branch"):
+            created[nobj] = (k, s[1])
+            nobj += 1
+    # the m4 shape: a second object started from a state after an earlier one of the same
+    # state (or that state itself) was appended to
+    for child, (k, par) in created.items():
+        for other, (k2, par2) in created.items():
+            if par2 == par and k2 > k and any(s[0] == "append" and s[1] in (child, par) for s in script[k + 1:k2]):
+                kinds.append("sibling_after_append")
+                break
+        else:
+            continue
+        break
+    if "slice" in names:
+        kinds.append("slice")
+    if "branch" in names:
+        kinds.append("fork")
+    if obs.get("error"):
+        kinds.append("raises")
+    return kinds
+
+
 # ----------------------------------------------------------------- run
 
 def txt(s):
@@ -550,12 +946,12 @@ def untxt(l):
 def run(rep, tier):
     b = common.build_property(PID, TRANSLATORS)
     common.standard_obligations(rep, PID, b)
-    exe = None
-    if b["make_ok"]:
-        exe, log = common.build_driver(PID)
-        rep.obligation("extraction of Model/SmtTextModel.v entry points + OCaml driver build", exe is not None, "" if exe else log[-800:])
-        if exe is None:
-            rep.fail("broken-tie", "extracted model driver does not build: " + log[-400:], case={})
+    # the extracted model does not depend on the proofs: it is built (and compared with the
+    # implementation) also when a proof obligation is broken
+    exe, log = common.build_driver(PID)
+    rep.obligation("extraction of Model/SmtTextModel.v + Model/PathHeapModel.v entry points + OCaml driver build", exe is not None, "" if exe else log[-800:])
+    if exe is None and b["make_ok"]:
+        rep.fail("broken-tie", "extracted model driver does not build: " + log[-400:], case={})
     m = Model(exe) if exe is not None else None
     r = common.rng(PID)
     nfail = [0]
@@ -567,9 +963,13 @@ def run(rep, tier):
         marks.append((name, _time.time()))
         rep.coverage["timing_s"] = {b[0]: round(b[1] - a[1], 1) for a, b in zip(marks, marks[1:])}
 
+    perkind = {}
+
     def fail(kind, what, case, **kw):
+        # the report prints 8 failures, failing inputs first: keep room for the other kinds
         nfail[0] += 1
-        if nfail[0] <= 12:
+        perkind[kind] = perkind.get(kind, 0) + 1
+        if perkind[kind] <= (5 if kind == "failing-input" else 6):
             rep.fail(kind, what, case=case, **kw)
 
     # ---- translated rules (when the translator still understands solve.py)
@@ -651,7 +1051,7 @@ def run(rep, tier):
 
     mark('refined_values')
     # ---- X-path
-    nscripts = 220 if tier == "quick" else 2000
+    nscripts = 220 if tier == "quick" else 6000
     scripts = list(CORPUS) + [gen_script(r, tier) for _ in range(nscripts)]
     if tier == "quick":
         impl = [impl_script(sc) for sc in scripts]
@@ -759,6 +1159,107 @@ def run(rep, tier):
                 fail("broken-tie", f"refine of the whole query (cache_solver={cs}) differs from the model applied line by line on script {scripts[k]}",
                      {"script": scripts[k], "cache_solver": cs})
     mark("compare")
+
+    # ---- X-heap: programs over several Path objects
+    nh = 220 if tier == "quick" else 12000
+    hscripts = list(HCORPUS) + [gen_hscript(r, tier) if k % 2 else gen_dfs_hscript(r, tier) for k in range(nh)]
+    if tier == "quick":
+        himpl = [impl_hscript(sc) for sc in hscripts]
+    else:
+        import multiprocessing as mp
+
+        with mp.get_context("spawn").Pool(8) as pool:
+            himpl = pool.map(impl_hscript, hscripts, chunksize=25)
+    mark("hscripts_impl")
+    hres = None
+    if m is not None:
+        calls = []
+        for o in himpl:
+            flat = [len(o["table"])]
+            for row in o["table"]:
+                flat += [len(row)] + row
+            for cs in (0, 1):
+                calls.append(("c11_heap", [cs] + flat + o["ops"]))
+            calls.append(("c11_lineage_spec", [0] + flat + o["ops"]))
+            calls.append(("c11_sched", [0] + flat + o["ops"]))
+            calls.append(("c11_lineage_solver", [0] + flat + o["ops"]))
+        hres = m.parallel_batch(calls)
+    mark("hscripts_model")
+    nobjects = 0
+    for k, (script, o) in enumerate(zip(hscripts, himpl)):
+        kinds = hscript_kinds(script, o)
+        for kd in kinds or ["plain"]:
+            rep.count("hscript_kind", kd)
+        case = {"hscript": script}
+        rep.case(case, nontrivial=bool(set(kinds) & {"several_children_of_one_state", "sibling_after_append", "fork"}))
+        mo = [parse_model_heap(hres[5 * k]), parse_model_heap(hres[5 * k + 1])] if hres is not None else None
+        if o["error"]:
+            if mo is not None and not (mo[0] and mo[0]["error"]):
+                fail("broken-tie", f"implementation raised {o['error']} but the object-level model ran on {script}", case)
+            continue
+        rep.count("objects_per_program", len(o["paths"]))
+        nobjects += len(o["paths"])
+        # --- spec vs implementation: every object's conditions / query = the constraints of its lineage
+        for j, po in enumerate(o["paths"]):
+            got, want = [c for c, _ in po["conds"]], o["spec_conds"][j] if j < len(o["spec_conds"]) else None
+            if got != want:
+                extra = [c for c in got if want is None or c not in want]
+                missing = [c for c in (want or []) if c not in got]
+                kind = "query-stronger" if extra else ("query-weaker" if missing else "query-order")
+                fail("failing-input",
+                     f"Path object {j} holds conditions {got} (to_smt2 serialises them all) but the constraints accumulated on its own lineage are {want}"
+                     f" (foreign: {extra}, lost: {missing}; integers name the simplified conditions of the program) on program {script}",
+                     dict(case, object=j, conditions=got, lineage=want), sig={"what": "object-" + kind})
+            for cs in ("False", "True"):
+                q = po["q"][cs]
+                if q["ids"] != got or q["n_ids"] != len(got):
+                    fail("failing-input", f"the ids of the query of Path object {j} (cache_solver={cs}) are not the ids of its conditions: {q['ids']} vs {got} on {script}",
+                         dict(case, object=j), sig={"what": "query-ids"})
+                for kind, detail in q.get("spec", []):
+                    if kind == "undecided":
+                        undecided += 1
+                        continue
+                    fail("failing-input",
+                         f"the dumped query of Path object {j} (cache_solver={cs}) is not equivalent to the constraints accumulated on its lineage [{kind}]: {detail} on program {script}",
+                         dict(case, object=j, cache_solver=cs, kind=kind, detail=detail), sig={"what": "object-" + kind})
+        if mo is None:
+            continue
+        ml = parse_model_lineage(hres[5 * k + 2])
+        if ml != o["spec_conds"]:
+            fail("broken-tie", f"python rendering of the lineage constraints {o['spec_conds']} differs from add_all/accumulated/lineages of the Coq development {ml} on {script}", case)
+        # C11_solver_mirrors_running_path on the real objects: when the program follows the
+        # exploration discipline, the z3 solver a path is running on holds the pure model's
+        # solver view of that path's lineage
+        sch = hres[5 * k + 3]
+        if sch and sch[0] == 1:
+            rep.count("hscript_kind", "follows_exploration_discipline")
+            it = iter(hres[5 * k + 4] or [0])
+            pure = []
+            for _ in range(next(it)):
+                st_, n_ = next(it), next(it)
+                pure.append(sorted(next(it) for _ in range(n_)) if st_ else None)
+            for sref, i in enumerate(sch[2:2 + sch[1]]):
+                if i < len(o["paths"]) and i < len(pure) and pure[i] != o["paths"][i]["solver"]:
+                    fail("broken-tie", f"solver object {sref}, running Path object {i}: z3 holds {o['paths'][i]['solver']}, the pure model's solver view along the lineage is {pure[i]} on disciplined program {script}",
+                         dict(case, object=i, implementation=o["paths"][i]["solver"], model=pure[i]))
+        for ci, cs in enumerate(("False", "True")):
+            mm_ = mo[ci]
+            if mm_ is None or mm_["error"]:
+                fail("broken-tie", f"object-level model failed / raised on program {script} where the implementation ran", case)
+                break
+            if len(mm_["paths"]) != len(o["paths"]):
+                fail("broken-tie", f"{len(o['paths'])} Path objects, model {len(mm_['paths'])} on {script}", case)
+                break
+            for j, (po, pm) in enumerate(zip(o["paths"], mm_["paths"])):
+                for field in ("conds", "pending", "sliced", "solver"):
+                    if pm[field] != po[field]:
+                        fail("broken-tie", f"Path object {j}.{field}: implementation {po[field]} vs object-level model {pm[field]} on program {script}",
+                             dict(case, object=j, field=field, implementation=po[field], model=pm[field]))
+                if pm["ids"] != po["q"][cs]["ids"]:
+                    fail("broken-tie", f"to_smt2 ids of Path object {j} (cache_solver={cs}): implementation {po['q'][cs]['ids']} vs model {pm['ids']} on {script}", dict(case, object=j))
+    mark("hcompare")
+    rep.coverage["path_objects_observed"] = nobjects
+    rep.coverage["object_programs_validated_against_impl"] = len(hscripts) if hres is not None else 0
     rep.coverage["undecided_equivalence_checks"] = undecided
     rep.coverage["traces_validated_against_impl"] = len(scripts) if mres is not None else 0
     return rep.finish(
@@ -766,14 +1267,21 @@ def run(rep, tier):
         trusted_base=common.TRUSTED_BASE_COMMON + ["z3 (python bindings) as the reference parser / evaluator of the dumped SMT-LIB text in the correspondence run"],
         assumptions=ASSUMPTIONS,
         partial=PARTIAL,
-        rule="three case families: (1) refine_line: declaration lines f_evm_<op>_<N> for ops inside / outside the alternations, widths 256/264/512 and others incl. malformed (mismatching sorts, leading zeros, non-digits), other query lines; non-trivial = an f_evm_ declaration; (2) eval: the real refined define-fun applied by z3 to boundary operands (0, 1, 2^(N-1), 2^N-1, ...) and random ones at widths 256/264/512 and small widths; non-trivial = zero divisor or a negative (msb set) operand; (3) script: random lives of a sevm.Path (append / branch+activate with the parent continuing / slice / extend_path into a Path with a fresh solver) over generated z3 conditions with f_evm_ abstractions, arrays, duplicates and trivially true conditions; non-trivial = a condition was deduplicated or dropped as true, the solver holds a strict subset of conditions (sliced parent), refinement changed the query, or a branch happened; distinct by hash of the case",
+        rule="three case families: (1) refine_line: declaration lines f_evm_<op>_<N> for ops inside / outside the alternations, widths 256/264/512 and others incl. malformed (mismatching sorts, leading zeros, non-digits), other query lines; non-trivial = an f_evm_ declaration; (2) eval: the real refined define-fun applied by z3 to boundary operands (0, 1, 2^(N-1), 2^N-1, ...) and random ones at widths 256/264/512 and small widths; non-trivial = zero divisor or a negative (msb set) operand; (3) script: random lives of a sevm.Path (append / branch+activate with the parent continuing / slice / extend_path into a Path with a fresh solver) over generated z3 conditions with f_evm_ abstractions, arrays, duplicates and trivially true conditions; non-trivial = a condition was deduplicated or dropped as true, the solver holds a strict subset of conditions (sliced parent), refinement changed the query, or a branch happened; (4) hscript: programs over several Path objects (handle = creation index; append / branch / activate / slice / extend on any live object; every other program generated along the exploration discipline: one running path per solver, LIFO activation, finished states sliced and extended once or twice) plus a directed corpus (two transactions from one unsliced / sliced state, both sides of a fork running on, a frontier state extended three times, out-of-order activation); non-trivial = several objects created from one state, an object created from a state after a sibling (or the state) was appended to, or a fork; distinct by hash of the case",
     )
 
 
 def replay(rep, body):
     for f in body.get("failures", []):
         case = f.get("case") or {}
-        if "script" in case:
+        if "hscript" in case:
+            o = impl_hscript(case["hscript"])
+            print("program over Path objects:", case["hscript"])
+            print("error:", o.get("error"), " constraints of every object's lineage:", o.get("spec_conds"))
+            for j, po in enumerate(o.get("paths") or []):
+                print(f" object {j}: conditions={[c for c, _ in po['conds']]} pending={po['pending']} sliced={po['sliced']} solver={po['solver']}"
+                      f" spec={ {cs: q.get('spec') for cs, q in po['q'].items()} }")
+        elif "script" in case:
             o = impl_script(case["script"])
             print("script:", case["script"])
             print("implementation:", {k: v for k, v in o.items() if k != "q"})
